@@ -409,7 +409,89 @@ def attacks(w, job, part):
                         part.violation(f'C_GetAttributeValue|{K.ktype(p.kind)}/{p.note},S={int(bool(p.S))},E={int(bool(p.E))},{a},in-sequence|revealed', f'{a} of a protected key was answered with rv={r["rvname"]} len={e.get("len")} changed={e.get("changed")}', wit())
         for p in pool: x.call('C_DestroyObject', s=w.s, o=p.h)
 
+# ---------------------------------------------------------------- a protected token key whose object file was cut off at a record boundary (what a failed / short write of a rewrite leaves)
+def cutoff_jobs(ctx, p):
+    """used by checks/c16.py: the trigger is an interrupted rewrite (C16), the outcome watched is the one C02 cares about"""
+    jobs = []
+    for kind in ctx.q(('AES16', 'RSApriv'), ('AES16', 'AES32', 'DES3', 'GEN64', 'RSApriv', 'ECpriv')):
+        for priv in (False, True):
+            for st in [q[0] for q in STATES[1:]]: jobs.append(dict(paths=p, hdr=p['hdr'], scratch=ctx.scratch, what='cutoff', kind=kind, private=priv, state=st, name=f'cutoff-{kind}-{int(priv)}-{st}', rseed=ctx.seed * 19 + len(jobs)))
+    return jobs
+
+def cutoff_job(job):
+    """"can never be wrapped" / "no call returns its value" also for the key a NEW process finds after a rewrite of the key's file was cut short (disk full at a buffer boundary):
+    the file is cut at EVERY attribute-record boundary (each prefix parses as a well-formed object); whatever the library then makes of it, the recorded value must not come out"""
+    from ck import CK
+    import objfile, refcrypt as R
+    ck = CK(job['hdr']); part = Part(); kind = job['kind']; rnd = random.Random(job['rseed']); base = os.path.join(job['scratch'], job['name']); gold = base + '-gold'; d = base + '-run'
+    for q in (gold, d): shutil.rmtree(q, ignore_errors=True)
+    os.makedirs(gold); w = None; x = None
+    try:
+        w = W(job['paths'], ck, gold, 'file', part, rnd); v = w.fresh_value(kind); states = {}
+        for st, S, E, WT in [q for q in STATES[1:] if q[0] == job['state']]:      # ONE victim per token directory: whatever comes out of this token that equals the recorded value came from the victim
+            h = w.mk(kind, S, E, v, token=True, private=job['private'], extra=dict({'CKA_WRAP_WITH_TRUSTED': True} if WT else {}, CKA_LABEL=b'VICTIM-' + st.encode(), CKA_ID=rnd.randbytes(rnd.choice([3, 40, 300]))))
+            if h is not None: states[st] = (S, E, WT)
+        known = known_material(kind, v); wkv = w.wk_value
+        r = w.x.call('C_CreateObject', s=w.s, tmpl=w.x.T(w.tmpl('AES32', False, True, wkv, token=True, private=False, extra={'CKA_LABEL': b'WRAPPER', 'CKA_WRAP': True}))); assert r['rv'] == 0, r
+        w.x.call('C_Finalize'); w.close(); w = None
+        files = {}
+        for root_, _, fs in os.walk(gold + '/tokens'):
+            for f in fs:
+                if f.endswith('.object') and f != 'token.object':
+                    b = open(os.path.join(root_, f), 'rb').read(); pz = objfile.parse(b); lab = pz.attrs.get(ck.CKA_LABEL)
+                    if isinstance(lab, (bytes, bytearray)) and bytes(lab).startswith(b'VICTIM-'): files[bytes(lab)[7:].decode()] = (os.path.relpath(os.path.join(root_, f), gold), b)
+                    elif job['private']:      # the label of a private object is encrypted: recognise the victims by their number of records instead (helpers have no CKA_ID of these lengths)
+                        pass
+        if not files and job['private']:
+            # private victims: every object file except the helpers' -- identify by CKA_WRAP_WITH_TRUSTED / flags is not possible either; take the files created last (the victims were created last, before WRAPPER)
+            cand = sorted(((os.path.getmtime(os.path.join(r_, f)), os.path.relpath(os.path.join(r_, f), gold)) for r_, _, fs in os.walk(gold + '/tokens') for f in fs if f.endswith('.object') and f != 'token.object'))
+            for (mt, rel), st in zip(cand[-(len(states) + 1):-1], states): files[st] = (rel, open(os.path.join(gold, rel), 'rb').read())
+        for st, (rel, b) in files.items():
+            S, E, WT = states[st]; cuts = [c for c in range(8, len(b)) if (lambda pz: pz.status == 'valid' and pz.consumed == c)(objfile.parse(b[:c]))]
+            part.count('cutoff_boundaries', len(cuts))
+            for c in cuts:
+                shutil.rmtree(d, ignore_errors=True); shutil.copytree(gold, d); open(os.path.join(d, rel), 'r+b').truncate(c)
+                missing = sorted(set(objfile.parse(b).attrs) - set(objfile.parse(b[:c]).attrs)); first_missing = ck.ATTR.get(missing[0], hex(missing[0])) if missing else '-'
+                x = Exec(job['paths']['exe'], job['paths']['lib'], mkconf(d, 'file', ''), ck, env=dict(SAN_ENV), stderr=f'{d}/stderr.log')
+                try:
+                    assert x.call('C_Initialize', locking='os')['rv'] == 0
+                    slot = [sl for sl in x.call('C_GetSlotList', count=8)['slots'] if x.call('C_GetTokenInfo', slot=sl)['flags'] & ck.CKF_TOKEN_INITIALIZED][0]
+                    s_ = x.call('C_OpenSession', slot=slot)['h']; assert x.call('C_Login', s=s_, user=1, pin=K.USER_PIN.hex())['rv'] == 0
+                    rvn, hs = x.findall(s_, {}); wk = [h for h in hs if x.getattrs(s_, h, ['CKA_LABEL'])[1].get('CKA_LABEL') == b'WRAPPER']
+                    outs = []; reads = []
+                    for h in hs:
+                        if h in wk: continue
+                        names = [n for n, _ in K.secret_attrs(kind)]; rv, a = x.getattrs(s_, h, names); reads += [bytes(q) for q in a.values() if q]
+                        for mech in ('CKM_AES_KEY_WRAP_PAD', 'CKM_AES_CBC_PAD', 'CKM_AES_KEY_WRAP'):
+                            if not wk: break
+                            iv = b'\x00' * 16; r = x.call('C_WrapKey', s=s_, mech=(x.M(mech, hex=iv.hex()) if mech == 'CKM_AES_CBC_PAD' else x.M(mech)), wkey=wk[0], key=h, buf=8192)
+                            if r['rv'] != 0 or not r['out'].get('data'): continue
+                            blob = bytes.fromhex(r['out']['data'])
+                            try: pt = R.kwp_unwrap(R.AES(wkv), blob) if mech == 'CKM_AES_KEY_WRAP_PAD' else R.cbc_pad_decrypt(R.AES(wkv), iv, blob) if mech == 'CKM_AES_CBC_PAD' else R.kw_unwrap(R.AES(wkv), blob)
+                            except Exception: pt = None
+                            if pt: outs.append(bytes(pt)); part.count('cutoff_wraps_that_succeeded')
+                    hit = lambda pool: sorted(a for a, val in known.items() if val and len(val) >= 8 and any(val in o for o in pool))
+                    by_read = hit(reads) if (S or not E) else []; by_wrap = hit(outs) if (not E or WT) else []      # (a readable key may be read; a key that is only WRAP_WITH_TRUSTED may not be wrapped under the untrusted key)
+                    present = set(objfile.parse(b[:c]).attrs); lost = '+'.join(n for n, on in (('CKA_SENSITIVE', S), ('CKA_EXTRACTABLE', not E), ('CKA_WRAP_WITH_TRUSTED', WT)) if on and ck[n] not in present) or 'none'
+                    part.case(('cut-off', kind, st, 'private' if job['private'] else 'public', first_missing), nontrivial=True, sample={'cut_off_key_file': [kind, st, c, len(b), first_missing, len(hs)]} if c == cuts[0] else None); part.count('cutoff_cases')
+                    for how, leaked in (('read', by_read), ('wrapped-under-an-untrusted-key', by_wrap)):
+                        if leaked: part.violation(f'rewrite-cut-at-record-boundary|key={K.ktype(kind)},state={st},stored-protection-lost={lost}|protected-value-{how}', 'a protected token key whose file was cut short at a record boundary (a rewrite interrupted between two write() calls) gives up its value in the recovering process', {'kind': kind, 'state': st, 'cut': c, 'of': len(b), 'leaked': leaked, 'missing_attributes': [ck.ATTR.get(m, hex(m)) for m in missing][:12], 'private': job['private']})
+                    x.call('C_Finalize')
+                except AssertionError as e: part.observe('cut-off key file: the token could not be opened (no verdict here)', {'kind': kind, 'cut': c, 'error': repr(e)[:200]})
+                except Died as e: part.observe('side:C17 library terminated the host on a cut-off key file', {'kind': e.kind(), 'fn': e.fn})
+                finally: x.close(); x = None
+    except AssertionError as e: part.inconc(f'cut-off lane setup failed ({kind}): {e!r}')
+    except Died as e: part.inconc(f'executor died in the cut-off lane set-up ({kind}): {e}')
+    except Hang: part.inconc(f'hang in the cut-off lane ({kind})')
+    finally:
+        if w is not None:
+            try: w.close()
+            except Exception: pass
+        for q in (gold, d): shutil.rmtree(q, ignore_errors=True)
+    return part
+
 def worker(job):
+    if job['what'] == 'cutoff': return cutoff_job(job)
     from ck import CK
     ck = CK(job['hdr']); part = Part(); d = os.path.join(job['scratch'], job['name']); shutil.rmtree(d, ignore_errors=True); os.makedirs(d); w = None
     try:
